@@ -380,10 +380,18 @@ ada_really_inline bool url::parse_host(std::string_view input) {
   unicode::to_lower_ascii(buffer.data(), buffer.size());
   bool is_forbidden = unicode::contains_forbidden_domain_code_point(
       buffer.data(), buffer.size());
+#ifdef ADA_URL_ADA_VERIF
+  if (ada_verif_buggify(106)) {
+    is_forbidden = true;  // conservative: may need to_ascii
+  }
+#endif
   static constexpr std::string_view xn_dash{"xn-", 3};
   if (is_forbidden == 0 && buffer.find(xn_dash) == std::string_view::npos) {
     // fast path
     host = std::move(buffer);
+#ifdef ADA_URL_ADA_VERIF
+    ada_verif_probe(206);
+#endif
 
     // Check for other IPv4 formats (hex, octal, etc.)
     if (checkers::is_ipv4(host.value())) {
